@@ -272,6 +272,60 @@ type Param struct {
 	ContentType string `json:"contentType,omitempty"`
 }
 
+// paramBinary is the JSON form of a Param whose value is not valid UTF-8 (for
+// instance a binary file in a multipart body); like binary post data text it
+// is carried base64-encoded and marked with an "encoding" field.
+type paramBinary struct {
+	Name        string `json:"name"`
+	Value       []byte `json:"value"`
+	Filename    string `json:"fileName,omitempty"`
+	ContentType string `json:"contentType,omitempty"`
+	Encoding    string `json:"encoding"`
+}
+
+// MarshalJSON returns a JSON representation of the posted parameter; a value
+// that is not valid UTF-8 is base64-encoded so that it survives serialization.
+func (p Param) MarshalJSON() ([]byte, error) {
+	if utf8.ValidString(p.Value) {
+		type noMethod Param // avoid infinite recursion
+		return json.Marshal(noMethod(p))
+	}
+	return json.Marshal(paramBinary{
+		Name:        p.Name,
+		Value:       []byte(p.Value),
+		Filename:    p.Filename,
+		ContentType: p.ContentType,
+		Encoding:    "base64",
+	})
+}
+
+// UnmarshalJSON populates the posted parameter based on its JSON
+// representation.
+func (p *Param) UnmarshalJSON(data []byte) error {
+	if bytes.Equal(data, []byte("null")) { // conform to json.Unmarshaler spec
+		return nil
+	}
+	var enc struct {
+		Encoding string `json:"encoding"`
+	}
+	if err := json.Unmarshal(data, &enc); err != nil {
+		return err
+	}
+	if enc.Encoding != "base64" {
+		type noMethod Param // avoid infinite recursion
+		return json.Unmarshal(data, (*noMethod)(p))
+	}
+	var pb paramBinary
+	if err := json.Unmarshal(data, &pb); err != nil {
+		return err
+	}
+	p.Name = pb.Name
+	p.Value = string(pb.Value)
+	p.Filename = pb.Filename
+	p.ContentType = pb.ContentType
+	return nil
+}
+
 // Content describes details about response content.
 type Content struct {
 	// Size is the length of the returned content in bytes. Should be equal to
